@@ -324,7 +324,7 @@ func runR_C15(c *Ctx) {
 				typed++
 				if len(errs) > 0 {
 					ok = false
-					gf := c.Repo.funcAt(rs.Run.LinePos[len(rs.Run.LinePos)/2])
+					gf := c.R.repo.funcAt(rs.Run.LinePos[len(rs.Run.LinePos)/2])
 					c.Rep.fail(Finding{Rule: "R4", Key: fmt.Sprintf("R4|%s|%s|%s", p, gf, holeRe.ReplaceAllString(stripLine(errs[0]), "_")), Where: []string{rs.where(c.Repo, rs.Funcs[0])}, Plugin: p, Script: rs.Run.Script,
 						Msg:    fmt.Sprintf("%s: with pairwise distinct opaque parameter types the emitted wrapper does not type-check (%s): an argument does not reach its own position, or the result list is wrong", p, errs[0]),
 						Detail: "abstract path: " + rs.Run.describe() + "\nresidual:\n" + rs.Run.excerpt(40) + "\nerrors:\n" + strings.Join(errs, "\n")})
